@@ -90,7 +90,48 @@ func observe(where string, c *tabular.Cell, want string, orig interface{}) *ev.V
 	return nil
 }
 
+// checkNestedStale: a cell holding a cell shows the INNER CELL's text, i.e. the snapshot the inner cell took, not a
+// fresh reading of the innermost item: the inner cell is built, its item is mutated (the inner cell is not updated),
+// and only then wrapped, and the outer cell is updated.
+func checkNestedStale(cs Case) *ev.Violation {
+	in := *cs.Item.In
+	il := gen.Materialise(in)
+	old := gen.TextForm(in, il)
+	inner := tabular.NewCell(il.V)
+	applyMut(il, in, *cs.Mut)
+	if inner.String() != old {
+		return ev.V("inner cell re-read its mutated item without Update: %q, was %q", inner.String(), old)
+	}
+	var outer tabular.Cell
+	if cs.Item.K == "pcell" {
+		outer = tabular.NewCell(&inner)
+	} else {
+		outer = tabular.NewCell(inner)
+	}
+	for _, step := range []string{"wrapped after the item was mutated", "outer Update()"} {
+		if outer.String() != old {
+			return ev.V("%s: a cell holding a cell shows %q, the inner cell's text is %q (the innermost item now reads %q)", step, outer.String(), old, gen.TextForm(in, il))
+		}
+		if outer.Empty() != (old == "") {
+			return ev.V("%s: outer cell Empty()=%v, inner cell's text is %q", step, outer.Empty(), old)
+		}
+		outer.Update()
+	}
+	// once the inner cell itself is updated and re-wrapped the new text shows
+	inner.Update()
+	now := gen.TextForm(in, il)
+	if o2 := tabular.NewCell(inner); o2.String() != now {
+		return ev.V("after the inner cell was updated a cell wrapping it shows %q, want %q", o2.String(), now)
+	}
+	return nil
+}
+
 func CheckCase(cs Case) *ev.Violation {
+	if (cs.Item.K == "cell" || cs.Item.K == "pcell") && cs.Item.In != nil && cs.Mut != nil && Mutable(*cs.Item.In) {
+		if v := checkNestedStale(cs); v != nil {
+			return v
+		}
+	}
 	// A: stand-alone cell
 	live := gen.Materialise(cs.Item)
 	want := gen.TextForm(cs.Item, live)
